@@ -53,6 +53,15 @@ fn take_rows(p: &Model, rows: &[usize]) -> Model {
     m
 }
 
+fn clip(s: String) -> String {
+    if s.chars().count() <= 1200 {
+        s
+    } else {
+        let t: String = s.chars().take(1200).collect();
+        format!("{} ... [clipped]", t)
+    }
+}
+
 struct Cx<'a> {
     op: &'static str,
     case: &'a Value,
@@ -60,7 +69,11 @@ struct Cx<'a> {
 }
 impl<'a> Cx<'a> {
     fn fail(&mut self, shape: &str, what: String) {
-        self.v.push(Violation::new(format!("{}.{}", self.op, shape), what, self.case.clone()));
+        self.v.push(Violation::new(format!("{}.{}", self.op, shape), clip(what), self.case.clone()));
+    }
+    /// a failure whose root cause is not tied to the operation of the transition
+    fn fail_global(&mut self, sig: &str, what: String) {
+        self.v.push(Violation::new(sig.to_string(), clip(what), self.case.clone()));
     }
 }
 
@@ -90,8 +103,16 @@ fn well_formed(cx: &mut Cx, o: &Obs, which: &str) -> bool {
     if !(o.w.is_empty() || o.w.len() == o.n) {
         cx.fail("weights_wrong_length", format!("{}: {} samples but a weight vector of length {}: {:?}", which, o.n, o.w.len(), o.w));
     }
-    if o.w_accessor.unwrap_or(0) != o.w.len() {
-        cx.fail("weights_accessor_inconsistent", format!("{}: weights() reports {:?} but the field has length {}", which, o.w_accessor, o.w.len()));
+    match &o.w_accessor {
+        Ok(len) => {
+            if len.unwrap_or(0) != o.w.len() {
+                cx.fail("weights_accessor_inconsistent", format!("{}: weights() reports {:?} but the field has length {}", which, len, o.w.len()));
+            }
+        }
+        Err(msg) => {
+            let sig = if o.w_strided && msg.contains("`None`") { "weights.accessor_panics_on_non_contiguous_weights" } else { "weights.accessor_panic" };
+            cx.fail_global(sig, format!("{}: weights() of the returned dataset (weights {:?}, contiguous: {}) panicked: {}", which, o.w, !o.w_strided, msg));
+        }
     }
     if !(o.fnames.is_empty() || o.fnames.len() == o.nf) {
         cx.fail("feature_names_wrong_length", format!("{}: {} feature columns but names {:?}", which, o.nf, o.fnames));
@@ -158,7 +179,13 @@ fn cmp_exact(cx: &mut Cx, o: &Obs, e: &Model, ordered: bool, which: &str) -> boo
                 cx.fail("wrong_targets", format!("{}: records {:?}: expected targets {:?}, got {:?}", which, o.rec, e.tgt, o.tgt));
             }
         } else if carried_w && Some(&o.w) != e.w.as_ref() {
-            cx.fail("weight_misaligned", format!("{}: records {:?} came with weights {:?}, their own weights are {:?}", which, o.rec, o.w, e.w));
+            let ew = e.w.as_ref().unwrap();
+            let k = (0..o.w.len()).find(|&k| o.w[k] != ew[k]).unwrap_or(0);
+            if o.n <= 8 {
+                cx.fail("weight_misaligned", format!("{}: records {:?} came with weights {:?}, their own weights are {:?}", which, o.rec, o.w, e.w));
+            } else {
+                cx.fail("weight_misaligned", format!("{}: row {} of {} (record {:?}) came with weight {}, its own weight is {}", which, k, o.n, o.rec[k], o.w[k], ew[k]));
+            }
         }
     } else {
         let got = sorted_rows(&o.rec, &o.tgt, if carried_w { Some(&o.w) } else { None });
@@ -258,8 +285,12 @@ fn cmp_selection(cx: &mut Cx, o: &Obs, p: &Model, rows: Sel, cols: Sel, which: &
         cx.fail("weights_from_nowhere", format!("{}: the source has no weights but the result carries {:?}", which, o.w));
         return false;
     }
+    let mut by_sid: BTreeMap<i64, Vec<usize>> = BTreeMap::new();
+    for i in 0..p.n() {
+        by_sid.entry(p.sid(i).unwrap()).or_default().push(i);
+    }
     for k in 0..o.n {
-        let cands: Vec<usize> = (0..p.n()).filter(|&i| p.sid(i) == Some(sids[k])).collect();
+        let cands: Vec<usize> = by_sid.get(&sids[k]).cloned().unwrap_or_default();
         if cands.is_empty() {
             cx.fail("nonexistent_sample", format!("{}: returned row {:?} is not a sample of the source", which, o.rec[k]));
             return false;
@@ -328,11 +359,11 @@ pub fn step(parent: &Model, act: &Act, history: &[String]) -> StepOut {
     let n = p.n();
 
     // documented panic of the owned split: records not in row-major layout
-    let expect_panic = matches!(act, Act::SplitOwned { .. }) && p.colmajor && n > 1 && p.nf > 1;
+    // (decided from the layout the state says, not by asking ndarray)
+    let expect_panic = matches!(act, Act::SplitOwned { .. }) && (p.lr.not_row_major(n, p.nf) || p.lt.not_row_major(n, if p.t2 { p.nt } else { 1 }));
     out.expected_panic = expect_panic;
 
-    let live = build(p);
-    let res: ImplOut = match guarded(|| run_impl(live, act)) {
+    let res: ImplOut = match guarded(|| run_impl(p, act)) {
         Ok(Ok(r)) => r,
         Ok(Err(e)) => {
             cx.fail("harness_inapplicable_action", e);
@@ -347,10 +378,21 @@ pub fn step(parent: &Model, act: &Act, history: &[String]) -> StepOut {
             // ELEMENT count) instead of the number of samples; with >= 2 target columns the record
             // chunks are then too few and either the concatenation of no chunks or the chunk swap fails
             let multi_fold = matches!(act, Act::Fold { .. }) && p.t2 && p.nt >= 2 && (msg.contains("Unsupported") || msg.contains("index out of bounds"));
-            // closed form of a second failure: the owned split takes `into_raw_vec()` of records and
-            // targets, i.e. the WHOLE allocation; for a row-major owned array that is a slice of a
-            // larger allocation the second `from_shape_vec` gets a buffer of the wrong length
-            let sliced_split = matches!(act, Act::SplitOwned { .. }) && (p.pad_rec || p.pad_tgt) && msg.contains("ShapeError");
+            // closed forms of two layout failures (see the findings): the `weights()` accessor unwraps
+            // `as_slice()` (used by with_labels), into_single_target unwraps `into_shape`
+            let strided_w = p.w.is_some() && matches!(p.lw, Lay::Reversed | Lay::EverySecond) && n > 1;
+            let strided_t = matches!(p.lt, Lay::Reversed | Lay::EverySecond) && n > 1;
+            let sliced_split = false;
+            if matches!(act, Act::WithLabels { .. }) && strided_w && msg.contains("`None`") {
+                cx.fail_global("weights.accessor_panics_on_non_contiguous_weights", format!("{:?} on a dataset whose weight array is {:?} (a legal owned Array1<f32>) panicked: {}", act, p.lw, msg));
+                out.viols = cx.v;
+                return out;
+            }
+            if matches!(act, Act::IntoSingleTarget) && strided_t && msg.contains("ShapeError") {
+                cx.fail("panic_on_non_contiguous_target_column", format!("{:?} on a dataset whose ({}, 1) target array is {:?} panicked: {}", act, n, p.lt, msg));
+                out.viols = cx.v;
+                return out;
+            }
             let shape = if multi_fold {
                 "panic_multi_column_targets"
             } else if sliced_split {
@@ -379,21 +421,7 @@ pub fn step(parent: &Model, act: &Act, history: &[String]) -> StepOut {
             let n1 = split_point(n, ratio).min(n);
             if !count_mismatch(&mut cx, res.outs.len(), 2, "parts") {
                 let (a, b) = (&res.outs[0], &res.outs[1]);
-                // closed form: weights that are a slice of a larger allocation are split by
-                // `into_raw_vec()` of the whole allocation (first n1 entries of the allocation / the rest)
-                let alloc: Vec<f32> = match (&p.w, p.pad_w && matches!(act, Act::SplitOwned { .. })) {
-                    (Some(w), true) => std::iter::repeat(POISON_WEIGHT).take(PAD_LEAD).chain(w.iter().cloned()).chain(std::iter::repeat(POISON_WEIGHT).take(PAD_TRAIL)).collect(),
-                    _ => vec![],
-                };
-                if !alloc.is_empty() && a.n == n1 && b.n == n - n1 && a.w[..] == alloc[..n1] && b.w[..] == alloc[n1..] {
-                    cx.fail(
-                        "sliced_weights_split_by_whole_allocation",
-                        format!(
-                            "ratio {} of {} samples whose weights {:?} are a slice of the allocation {:?}: the parts carry weights {:?} and {:?} (first {} entries of the allocation / the rest) instead of {:?} and {:?}",
-                            ratio, n, p.w.as_ref().unwrap(), alloc, a.w, b.w, n1, &p.w.as_ref().unwrap()[..n1], &p.w.as_ref().unwrap()[n1..]
-                        ),
-                    );
-                } else if a.n != n1 || b.n != n - n1 {
+                if a.n != n1 || b.n != n - n1 {
                     let nd = split_point_double(n, ratio);
                     let shape = if a.n == nd && b.n == n - nd { "size_from_double_precision_product" } else { "wrong_sizes" };
                     cx.fail(
@@ -401,10 +429,8 @@ pub fn step(parent: &Model, act: &Act, history: &[String]) -> StepOut {
                         format!("ratio {} of {} samples: expected parts of {} and {} (ceil of the single-precision product {}), got {} and {}", ratio, n, n1, n - n1, (n as f32) * ratio, a.n, b.n),
                     );
                 } else {
-                    let mut e1 = take_rows(p, &all_rows[..n1]);
-                    let mut e2 = take_rows(p, &all_rows[n1..]);
-                    e1.colmajor = false;
-                    e2.colmajor = false;
+                    let e1 = take_rows(p, &all_rows[..n1]);
+                    let e2 = take_rows(p, &all_rows[n1..]);
                     ok[0] = cmp_exact(&mut cx, a, &e1, true, "first part");
                     ok[1] = cmp_exact(&mut cx, b, &e2, true, "second part");
                 }
@@ -594,24 +620,37 @@ pub fn step(parent: &Model, act: &Act, history: &[String]) -> StepOut {
         }
         if ok[i] {
             let mut m = o.to_model();
-            if m.n() <= 1 || m.nf <= 1 {
-                m.colmajor = false;
+            // Memory layout of the successor. Results that still are (views of / moved parts of) the
+            // source's arrays keep the source's layout: view, split of a view and chunks (record and
+            // target views), into_single_target (records moved, targets reshaped in place),
+            // map_targets (records and weights moved / cloned with their strides), one_vs_all and the
+            // column iterators (record views, weights cloned with their strides). Everything else
+            // is freshly allocated: row-major, or column-major where the observation says so.
+            let (keep_r, keep_t, keep_w) = match act {
+                Act::View => (true, true, true),
+                Act::SplitView { .. } | Act::Chunks { .. } => (true, true, false),
+                Act::IntoSingleTarget => (true, true, false),
+                Act::MapTargets { .. } => (true, false, true),
+                Act::OneVsAll { .. } => (true, false, true),
+                Act::FeatureIter { .. } | Act::TargetIter { .. } => (true, true, true),
+                _ => (false, false, false),
+            };
+            if keep_r {
+                m.lr = p.lr;
             }
-            // which results still live in the source's allocations: into_single_target reshapes the
-            // target array in place and moves records; map_targets on the owned value moves records
-            // and weights; `view` is the same value. Everything else allocates fresh arrays.
-            match act {
-                Act::IntoSingleTarget | Act::View => {
-                    m.pad_rec = p.pad_rec;
-                    m.pad_tgt = p.pad_tgt;
-                    m.pad_w = p.pad_w && m.w.is_some();
-                }
-                Act::MapTargets { view: false } => {
-                    m.pad_rec = p.pad_rec;
-                    m.pad_w = p.pad_w && m.w.is_some();
-                }
-                _ => {}
+            if keep_t {
+                m.lt = if !m.t2 && p.lt == Lay::ColMajor { Lay::Std } else { p.lt };
             }
+            if keep_w && m.w.is_some() {
+                m.lw = p.lw;
+            }
+            if m.lr == Lay::ColMajor && (m.n() <= 1 || m.nf <= 1) {
+                m.lr = Lay::Std;
+            }
+            if m.lt == Lay::ColMajor && (m.n() <= 1 || m.nt <= 1 || !m.t2) {
+                m.lt = Lay::Std;
+            }
+            m.ltype = if matches!(act, Act::OneVsAll { .. }) && p.ltype != "usize" { "bool".to_string() } else { p.ltype.clone() };
             if m.n() > 0 && (m.rec != p.rec || m.tgt != p.tgt) {
                 out.effective = true;
             }
